@@ -436,6 +436,55 @@ class SymMath:
 
 symmath = SymMath()
 
+import builtins as _bi
+
+
+class _IntMeta(type):
+    def __instancecheck__(cls, x):
+        return isinstance(x, _bi.int)
+
+    def __subclasscheck__(cls, sub):
+        return issubclass(sub, _bi.int)
+
+
+class symint(_bi.int, metaclass=_IntMeta):
+    """`int` as seen by the code under verification: usable as a type in isinstance(), and as a
+    conversion it truncates toward zero on proxies instead of concretising them."""
+    def __new__(cls, x=0, *a):
+        if isinstance(x, SInt):
+            return x
+        if isinstance(x, SReal):
+            t = x._term
+            return wrap(tm.ite(tm.ge(t, tm.ZERO), tm.floor(t), tm.neg(tm.floor(tm.neg(t)))))
+        if hasattr(x, '_as_scalar_term') and not isinstance(x, (_bi.int, _bi.float, str)):
+            t = x._as_scalar_term()
+            if t.op == 'const':
+                return _bi.int(t.args[0])
+            return symint(wrap(t))
+        return _bi.int(x, *a)
+
+
+class _FloatMeta(type):
+    def __instancecheck__(cls, x):
+        return isinstance(x, _bi.float)
+
+    def __subclasscheck__(cls, sub):
+        return issubclass(sub, _bi.float)
+
+
+class symfloat(_bi.float, metaclass=_FloatMeta):
+    def __new__(cls, x=0.0):
+        if isinstance(x, SReal):
+            return x
+        if isinstance(x, SInt):
+            return wrap(tm.toreal(x._term))
+        if hasattr(x, '_as_scalar_term') and not isinstance(x, (_bi.int, _bi.float, str)):
+            t = x._as_scalar_term()
+            if t.op == 'const':
+                return _bi.float(t.args[0])
+            return wrap(tm.toreal(t)) if t.sort != 'R' else wrap(t)
+        return _bi.float(x)
+
 
 # ------------------------------------------------------------------ path exploration
 
